@@ -320,3 +320,9 @@ def solve(root: ast.AST, patterns: list[str], b: dict[str, str] | None = None) -
                 return r
         return None
     return go(0, dict(b or {}), [])
+
+
+def fact(facts, text: str, pol: bool = True) -> bool:
+    """Is (text, pol) among the branch facts -- compared with ==, so that the
+    text matches up to a renamed temporary (set membership would hash)."""
+    return any(p == pol and t == text for t, p in facts)
